@@ -64,6 +64,19 @@ def run(tier):
         rep.part('larger fields (%d athletes, %d regular heights + a closing one, %s reduced cards), heights passed as %s' % (n, R, tot['reduced_cards'], codec), wall_s=round(time.time() - t0, 1), **tot)
         for sig, hist, msg in viol:
             rep.add_violation(Violation(sig + ':heights-as-%s' % codec, dict(bounds=[n, R + 1, 1], history=hjmc.fmt_hist(hist), codec=codec), msg))
+    # larger fields once more with the competition's diagnostic flag on (verbose=1: the ranking prints what it does)
+    for (n, R, nc, per) in ([(3, 2, None, 1)] if tier == 'quick' else [(3, 2, None, 2), (4, 2, None, 1), (3, 3, None, 1)]):
+        t0 = time.time()
+        hjmc.COMP_OPTS['verbose'] = 1
+        try:
+            tot, viol = hjmc.placing_enumerate(n, R, nc, per)
+        finally:
+            hjmc.COMP_OPTS.clear()
+        for k in dt:
+            dt[k] += tot[k]
+        rep.part('larger fields (%d athletes, %d regular heights + a closing one, %s reduced cards), verbose flag on' % (n, R, tot['reduced_cards']), wall_s=round(time.time() - t0, 1), **tot)
+        for sig, hist, msg in viol:
+            rep.add_violation(Violation(sig + ':heights-as-opt:verbose', dict(bounds=[n, R + 1, 1], history=hjmc.fmt_hist(hist), codec='opt:verbose'), msg))
     # many heights: pairs of long cards (up to 14 failures before the best height) plus an also-ran
     t0 = time.time()
     R9 = 9 if tier == 'quick' else 11
